@@ -8,6 +8,7 @@ import signal
 import subprocess
 import sys
 import time
+import zlib
 
 from . import rule
 from . import spec as vspec
@@ -61,6 +62,12 @@ def run_ddsmt(workdir, text, spec, opts, mode='blackbox', plan=None, spec_cc=Non
     if os.path.exists(workdir):
         shutil.rmtree(workdir, ignore_errors=True)
     os.makedirs(workdir)
+    auto_base = None
+    if not tmp_base and zlib.crc32(text.encode('utf-8', 'replace')) % 3 == 1 and os.path.isdir('/dev/shm') \
+            and os.stat('/dev/shm').st_dev != os.stat(workdir).st_dev:
+        # a third of the runs: ddSMT's temporary directory on another file system
+        # than the input and output file (as /tmp often is)
+        auto_base = tmp_base = f'/dev/shm/verif-e2e-{os.getpid()}'
     if tmp_base:
         # ddSMT's TMPDIR on another file system than the output file
         tmpdir = os.path.join(tmp_base, 'tmp-' + os.path.basename(workdir) + f'-{os.getpid()}')
@@ -80,7 +87,14 @@ def run_ddsmt(workdir, text, spec, opts, mode='blackbox', plan=None, spec_cc=Non
     if spec_cc is not None:
         spc = vspec.write_spec(spec_cc, os.path.join(workdir, 'cc.spec'))
         argv += ['-c', ' '.join(vspec.cmdline(spc, log, 'cc'))]
-    argv += [infile, outfile] + cmd
+    # a third of the runs name the files and the command relative to the working directory
+    relative = zlib.crc32(text.encode('utf-8', 'replace')) % 3 == 0
+    r.infile_arg = os.path.basename(infile) if relative else infile
+    if relative:
+        cmd = [os.path.relpath(cmd[0], workdir)] + cmd[1:]
+        argv += [os.path.basename(infile), os.path.basename(outfile)] + cmd
+    else:
+        argv += [infile, outfile] + cmd
     env = dict(os.environ)
     env.update(TMPDIR=tmpdir, PYTHONHASHSEED=str(hashseed), VERIF_REPO=REPO,
                PYTHONDONTWRITEBYTECODE='1')
@@ -153,6 +167,11 @@ def run_ddsmt(workdir, text, spec, opts, mode='blackbox', plan=None, spec_cc=Non
     r.tmp_left = sorted(os.listdir(tmpdir))
     if tmp_base:
         shutil.rmtree(tmpdir, ignore_errors=True)
+    if auto_base:
+        try:
+            os.rmdir(auto_base)
+        except OSError:
+            pass
     # give stragglers a moment, then look for survivors of the process group
     r.survivors = list_group(p.pid)
     if r.survivors:
@@ -207,7 +226,12 @@ def list_group(pgid):
                 start = int(rest[19]) / os.sysconf('SC_CLK_TCK')
                 with open('/proc/uptime') as f:
                     up = float(f.read().split()[0])
-                out.append((int(pid), state, cl, round(up - start, 2)))
+                try:
+                    with open(f'/proc/{pid}/wchan') as f:
+                        wchan = f.read().strip()
+                except OSError:
+                    wchan = '?'
+                out.append((int(pid), state, cl, round(up - start, 2), wchan))
         except (OSError, ValueError):
             continue
     return out
